@@ -330,6 +330,17 @@ class Run:
         self.tier = a.tier if a.tier in ("quick", "thorough") else "quick"
         self.replay = a.replay
         self.seed = get_seed()
+        if self.replay and os.path.exists(self.replay):
+            # every random choice derives from one PRNG state: re-running with the recorded seed and tier regenerates the
+            # same inputs, hence the recorded failing input (checks with a dedicated replay path additionally run it alone)
+            try:
+                doc = json.load(open(self.replay))
+                if isinstance(doc.get("seed"), int):
+                    self.seed = doc["seed"]
+                if "_thorough_" in os.path.basename(self.replay):
+                    self.tier = "thorough"
+            except Exception:
+                pass
         self.rng = random.Random(self.seed * 1000003 + int(pid[1:]))
         self.t0 = time.time()
         self.violations = []
